@@ -15,5 +15,5 @@ def obligations(tier):
               f"entity statement #{i} + any second entity statement (symbolic) in 4 contexts (alone / after a table / between two tables / before a table - symbolic); "
               "tables use s.ty and ty2 as column types") for i in range(NEN)]
     obs += lex_obs("C18", "c_kw", ["after_create"], tier, "lex")
-    obs += lex_obs("C18", "c_name", ["after_dot"], tier, "lexname")
+    obs += lex_obs("C18", "c_name", ["after_dot", "type_after_dot"], tier, "lexname")
     return obs
